@@ -24,6 +24,9 @@
 (* m.first tells the first call of init_tcp_reader from a reconnect;       *)
 (* m.retry is the --retry-tcp option.                                      *)
 (*                                                                         *)
+(* ClearOnDisconnect = FALSE: the original kept a partial line across a    *)
+(*   disconnect; with --retry-tcp the first line of the new connection was *)
+(*   glued to it and lost (named deviation; NoLineSpoiled fails).          *)
 (* RestoreOnWaitQuit = TRUE : the code after the fix.                      *)
 (* RestoreOnWaitQuit = FALSE: the original returned from main when the     *)
 (*   operator quit while waiting for the first connection, leaving the     *)
@@ -32,11 +35,15 @@
 (***************************************************************************)
 EXTENDS Integers, Sequences, FiniteSets
 
-CONSTANT RestoreOnWaitQuit
+CONSTANTS RestoreOnWaitQuit,
+          ClearOnDisconnect      \* TRUE: the line buffer is emptied when the server disconnects (the code after the fix)
 
 Cooked == [raw |-> FALSE, mouse |-> FALSE, cursor |-> TRUE]
 \* retry: --retry-tcp was given
-M0(retry) == [pc |-> "start", term |-> Cooked, quit |-> "none", tracked |-> {}, first |-> TRUE, status |-> -1, retry |-> retry]
+\* buf: the line buffer holds the beginning of a line ("part") or nothing; stale: what it holds came from a connection
+\* that has since been closed; spoiled: a complete line was appended to such a remnant (and so was lost)
+M0(retry) == [pc |-> "start", term |-> Cooked, quit |-> "none", tracked |-> {}, first |-> TRUE, status |-> -1, retry |-> retry,
+              buf |-> "empty", stale |-> FALSE, spoiled |-> FALSE]
 
 \* ---- internal (unlogged, deterministic) steps -------------------------------------------------
 Setup(m) == [m EXCEPT !.pc = "wait_draw", !.term = [raw |-> TRUE, mouse |-> TRUE, cursor |-> TRUE]]   \* EnableMouseCapture, raw mode
@@ -55,12 +62,17 @@ WaitQuit(m) == IF m.first
                      ELSE [m EXCEPT !.quit = "user", !.pc = "exit", !.status = 0])          \* original: `return Ok(())` at once
                ELSE [m EXCEPT !.quit = "user", !.pc = "bottom"]                              \* `None => break`
 Connected(m) == [m EXCEPT !.pc = "top", !.quit = "none", !.first = FALSE]
-Line(m) == [m EXCEPT !.pc = "lined"]
+Line(m) == [m EXCEPT !.pc = "lined", !.buf = "empty", !.stale = FALSE, !.spoiled = m.spoiled \/ m.stale]
+\* read_line timed out (or hit the end of the stream) after the beginning of a line: the bytes stay in the buffer
+PartialRead(m) == [m EXCEPT !.pc = "covered", !.buf = "part"]
 Action(m, keys) == [m EXCEPT !.pc = "actioned", !.tracked = keys]
 Coverage(m) == [m EXCEPT !.pc = "covered"]
 Draw(m, keys) == [m EXCEPT !.pc = "events", !.tracked = keys, !.term.cursor = FALSE]        \* prune, then draw
 Input(m, q) == IF q THEN [m EXCEPT !.quit = "user"] ELSE m
-Disconnect(m) == [m EXCEPT !.pc = "top", !.quit = "tcp"]                                      \* read_line returned 0; `continue`
+\* read_line returned 0; `continue`.  The original code kept the buffer: after a reconnect the first line of the new
+\* connection was appended to the remnant of the old one (named deviation ClearOnDisconnect = FALSE)
+Disconnect(m) == IF ClearOnDisconnect THEN [m EXCEPT !.pc = "top", !.quit = "tcp", !.buf = "empty", !.stale = FALSE]
+                 ELSE [m EXCEPT !.pc = "top", !.quit = "tcp", !.stale = (m.buf = "part")]
 Bottom(m) == [m EXCEPT !.pc = "restore"]                                                     \* settings.quit.unwrap(); hook event `quit`
 
 \* ---- Level A -------------------------------------------------------------------------------------
@@ -68,6 +80,8 @@ TerminalRestoredAt(m) == m.pc = "exit" => m.term = Cooked
 \* the loop is only ever left for a reason: the unwrap after it cannot fail, and the client ends only when asked to or
 \* when the feed went away for good
 LeftForAReason(m) == m.pc \in {"bottom", "restore", "exit"} => (m.quit = "user" \/ (m.quit = "tcp" /\ ~m.retry))
+\* every complete line of a connection is taken as it was sent (C16): none is glued to bytes of an earlier connection
+NoLineSpoiled(m) == ~m.spoiled
 \* what an action may do to the tracked set: add at most one aircraft, remove none; what a draw may do: only expire
 ActionOK(before, after) == before \subseteq after /\ Cardinality(after \ before) <= 1
 DrawOK(before, after) == after \subseteq before
